@@ -134,22 +134,24 @@ def _get_cyclic_f(knots: numpy.ndarray) -> numpy.ndarray:
     b = numpy.zeros((n, n))
     d = numpy.zeros((n, n))
 
+    # Note: off-diagonal contributions are accumulated, since with only two
+    # intervals the "wrap-around" entries coincide with the regular ones.
     b[0, 0] = (h[n - 1] + h[0]) / 3.0
-    b[0, n - 1] = h[n - 1] / 6.0
-    b[n - 1, 0] = h[n - 1] / 6.0
+    b[0, n - 1] += h[n - 1] / 6.0
+    b[n - 1, 0] += h[n - 1] / 6.0
 
     d[0, 0] = -1.0 / h[0] - 1.0 / h[n - 1]
-    d[0, n - 1] = 1.0 / h[n - 1]
-    d[n - 1, 0] = 1.0 / h[n - 1]
+    d[0, n - 1] += 1.0 / h[n - 1]
+    d[n - 1, 0] += 1.0 / h[n - 1]
 
     for i in range(1, n):
         b[i, i] = (h[i - 1] + h[i]) / 3.0
-        b[i, i - 1] = h[i - 1] / 6.0
-        b[i - 1, i] = h[i - 1] / 6.0
+        b[i, i - 1] += h[i - 1] / 6.0
+        b[i - 1, i] += h[i - 1] / 6.0
 
         d[i, i] = -1.0 / h[i - 1] - 1.0 / h[i]
-        d[i, i - 1] = 1.0 / h[i - 1]
-        d[i - 1, i] = 1.0 / h[i - 1]
+        d[i, i - 1] += 1.0 / h[i - 1]
+        d[i - 1, i] += 1.0 / h[i - 1]
 
     return numpy.linalg.solve(b, d)
 
